@@ -344,7 +344,21 @@ impl RawGen {
             }
             "alloc" => {
                 let id = self.id();
-                match rng.below(6) {
+                match rng.below(7) {
+                    6 => {
+                        // an existing array name declared again with another length (locally, if a
+                        // group is open: the old array comes back when the group ends). Afterwards
+                        // only element 0 of that name is used, which exists under either length.
+                        if self.arrays.is_empty() {
+                            return None;
+                        }
+                        let k = rng.below(self.arrays.len());
+                        let n = self.arrays[k].0.clone();
+                        let len = 1 + rng.below(5);
+                        self.arrays[k].1 = 1;
+                        self.reach.push("array_declared_again");
+                        Some(format!("{n} 0={} \\newIntArray{n} {len} {n} 0={} \\the{n} 0;", id, id + 1))
+                    }
                     4 => {
                         // read back, possibly long after the write and after groups have closed
                         let n = self.ints.get(rng.below(self.ints.len().max(1)))?.clone();
